@@ -306,6 +306,12 @@ func (r *runner) compareSearch(label string, s *Search, corpus *model.Corpus) bo
 		r.s.Probe("nested_counts_skipped")
 		return true
 	}
+	if r.copiesPossible() && len(want) > s.Size {
+		// copies of a document in two fractions: total and histogram are corrected for the repetitions that are
+		// listed, so they are only defined when the listing covers the whole result (DESIGN section 10)
+		r.s.Probe("counts_skipped_partial_page_after_write_error")
+		return true
+	}
 	if s.WithTotal && res.Total != uint64(len(want)) {
 		r.violate("total", "%s: search %q reports total %d, model has %d matching documents", label, s.Q.SeqQL(), res.Total, len(want))
 		return false
